@@ -174,7 +174,9 @@ SEEDS = ['x=1\na |= 1\ny=2\n', '?x,y\nz=1\n', '', '--c', 'x=1', 't={1,2}',
          'if (a) b=1 c=2\nd=3\n', 'x=1 --c\ny=2', 'a=1;;b=2;',
          'f{1}"s":m()\n', '(f or g)(x)\n', 'y=(-a).b\n', 'z=(a)(b)\n',
          'z=("x"):rep(2)\n', 'z=((a).b)[c]\n', 'z=(...)\n',
-         'z=(function() end)()\n', 'z = ( a ) ( b )\n']
+         'z=(function() end)()\n', 'z = ( a ) ( b )\n',
+         'if (x) a=1 else\nb=2\n', 'if (x) a=1 else', 'a=1;;b=2;\n;;c=3\n',
+         'if (x) a=1 else c=3\nb=2\n']
 HARNESSES = [
     Harness('kernel', kernel, quick=KQ,
             thorough=KQ + [dict(Q, n=3, at_start=False, at_eof=e, indent=1,
